@@ -102,7 +102,7 @@ __CPROVER_assigns(*result, *result_length, g_pipe_n, g_pipe_first_mode, g_pipe_l
 __CPROVER_ensures(PIPE_NORM_POST(mode, terminate))
 __CPROVER_ensures(RET == CIF_OK || RET == CIF_MEMORY_ERROR || RET == CIF_ERROR)
 /* success: a buffer holding the g_norm_len normalised units, NUL-terminated when asked for, handed to the caller */
-__CPROVER_ensures(RET == CIF_OK ==> (*result_length == g_norm_len && __CPROVER_is_fresh(*result, ((size_t)g_norm_len + 1) * sizeof(UChar))))
+__CPROVER_ensures(RET == CIF_OK ==> (*result_length == g_norm_len && __CPROVER_rw_ok(*result, ((size_t)g_norm_len + (terminate ? 1 : 0)) * sizeof(UChar))))
 __CPROVER_ensures((RET == CIF_OK && terminate) ==> (*result)[g_norm_len] == 0)
 /* failure: outputs untouched (and, checked by --memory-leak-check in the harness, nothing left allocated) */
 __CPROVER_ensures(RET != CIF_OK ==> (*result == OLD(*result) && *result_length == OLD(*result_length)))
